@@ -226,7 +226,9 @@ def direct_predicates(sc, obs, stats):
                         fails.append(("C08:plib-without-quorum",
                                       "block %d became a proposed LIB with %d < %d confirming blocks" % (cno, cnt, need),
                                       {"op_index": k, "entry": e}))
-            if st["lib_no"] != plib_no and st["prpsd"]:
+            # (at an election boundary the map is filtered by the new producer set after the LIB was computed)
+            boundary = sc.get("election") and (len(o["main"]) - 1) % 100 == 0
+            if st["lib_no"] != plib_no and st["prpsd"] and not boundary:
                 np_ = len(st["prpsd"])
                 sup = sum(1 for e in st["prpsd"] if e["plib_no"] >= st["lib_no"])
                 stats["lib_changes"] += 1
